@@ -173,3 +173,39 @@ from_value_bool!(c10_from_value_true, true);
 from_value_bool!(c10_from_value_false, false);
 from_value!(c10_from_value_int, 2);
 from_value!(c10_from_value_float, 3);
+
+// a string-typed Equals against a number compares numerically (the documented string/number cross-type comparison):
+// Int(n).test(Equals(s)) for every s of <= 3 ASCII characters over digits, signs and a letter
+fn sigma10(i: u8) -> u8 {
+    match i % 6 { 0 => b'-', 1 => b'+', 2 => b'0', 3 => b'1', 4 => b'9', _ => b'x' }
+}
+macro_rules! int_equals_str {
+    ($name:ident, $n:expr) => {
+        #[kani::proof]
+        #[kani::unwind(8)]
+        fn $name() {
+            let i: [u8; 3] = kani::any();
+            let b: [u8; 3] = [sigma10(i[0]), sigma10(i[1]), sigma10(i[2])];
+            let s: &str = unsafe { core::str::from_utf8_unchecked(&b[..$n]) };
+            let n: isize = kani::any();
+            let v = DataValue::Int(n);
+            let op = DataOperator::Equals(Cow::Borrowed(s));
+            let got = v.test(&op);
+            // oracle: s is [+-]?digits+ and its value is n
+            let (sign, start): (isize, usize) = if $n > 0 && b[0] == b'-' { (-1, 1) } else if $n > 0 && b[0] == b'+' { (1, 1) } else { (1, 0) };
+            let mut numeric = start < $n;
+            let mut val: isize = 0;
+            let mut k = start;
+            while k < $n {
+                if b[k].is_ascii_digit() { val = val * 10 + (b[k] - b'0') as isize; } else { numeric = false; }
+                k += 1;
+            }
+            assert!(got == (numeric && sign * val == n), "Int(n) passes Equals(s) exactly when s is the decimal form of n");
+            kani::cover!(got && n < 0, "negative number matched by its text");
+            kani::cover!(!got && numeric, "numeric text of another number");
+            core::mem::forget(op);
+        }
+    };
+}
+int_equals_str!(c10_int_equals_str_len2, 2);
+int_equals_str!(c10_int_equals_str_len3, 3);
